@@ -49,5 +49,25 @@ CHECKS = {
         note="Stereo, isotopes and radicals are excluded as the statement says; hcount/aromatic are not carried by GML and are not compared there; the implicit direction is asserted only for graphs without explicit H nodes (documented).",
         technique="round-trip + differential property testing (exhaustive over the molecule/reaction population, Hypothesis rewritings)",
     ),
+    "C08": dict(
+        text="Exhaustive + generated testing of graph canonicalisation: whole enumerated domains of labelled graphs (n<=3 over several attribute alphabets, n=4 elements; thorough adds n=4 element x order, hcount x aromatic, n=5 elements) under all/several insertion orders are grouped by signature and by a reference canonical form (minimum over permutations): every signature group must lie in one isomorphism class for all four back-ends, and for the exact back-end every class must have one signature and one canonical graph. Hypothesis adds faithful-relabelling (bijection onto 1..N recovered by brute force on all attributes), determinism, graph-vs-renumbered/edited-copy pairs and SynRule/SynGraph/CanonicalGraph equality+hash against reference isomorphism.",
+        note="Isomorphism is claimed only on the attributes the signature covers; standard_order is assumed to be a function of order as in ITS graphs (the exact search refines on order only).",
+        technique="exhaustive small-domain enumeration + Hypothesis pairs against a brute-force canonical form",
+    ),
+    "C09": dict(
+        text="Metamorphic and differential testing of the reaction normal forms on 314 mapped reactions (corpus + vendored) under generated renumbering / atom re-ordering / fragment shuffles: CanonRSMI (wl at several depths, nauty) output is ITS-isomorphic to the input by an own matcher, keeps the unmapped sides, is a fixed point and, for rigid reactant graphs (own automorphism count), independent of numbering; Standardize.fit idempotent and representation-invariant; AAMValidator accepts every renumbering and its verdict on every same-element centre transposition equals an own labelled-isomorphism decision; check_equivariant_graph vs own pairwise isomorphism; rsmi_balance_check equals an own element/H/charge counter on balanced, fragment-deleted/duplicated and one-atom-edited reactions.",
+        note="Independence is asserted only when the reactant graph has the identity as its only label-preserving automorphism; invalid SMILES are outside the balance clause's domain.",
+        technique="metamorphic + differential property testing against own matcher/counter (Hypothesis over corpus variants and adversarial edits)",
+    ),
+    "C12": dict(
+        text="Validity + exhaustive maximality of MCS results for both MCSMatcher classes: every ordered pair of the 772 isomorphism-class representatives with <= 4 nodes (every 48th in quick, all 595 984 in thorough) and Hypothesis pairs up to 6x7 nodes (planted cores, copies, one-edit copies, disconnected, first graph larger/smaller). Each mapping must be injective, label- and bond-preserving in both directions with equal order; in maximum mode all mappings have the reference size found by an own branch-and-bound over injective partial maps; the two directions are mutual inverses; inputs unmodified.",
+        note="The documented notion is a common induced subgraph that need not be connected; heuristic modes (mcs_mol, component mapping) are not exercised.",
+        technique="property testing with a validity predicate and an exhaustive-search maximality oracle",
+    ),
+    "C13": dict(
+        text="Partition oracle for clustering: lists of 2-14 reaction-centre graphs built from corpus centres with generated exact copies, relabelled copies and near-misses (one charge / one order component changed), in generated orders, with none or one of 8 invariant pre-grouping attributes; GraphCluster.fit / iterative_cluster and BatchCluster.fit (generated batch sizes, arrival orders) must induce exactly the partition given by pairwise brute-force isomorphism on (element, charge, order pair); incremental histories of lib_check / cluster / fit against no, fitted or given representatives are checked after every step (joins its isomorphic representative's class or opens an unused id).",
+        note="Lists are non-empty (empty input raises IndexError in one-shot mode - outside the statement); list-valued attributes are passed sorted.",
+        technique="reference-partition property testing incl. generated incremental histories",
+    ),
 }
 NOT_APPLICABLE = {}
